@@ -145,14 +145,14 @@ def skelClass (name : String) : String :=
   | some m =>
     let recv := match m.recv with | .none => "ctor" | .shared => "self" | .excl => "mutself" | .owned => "owned"
     let cls := if GuardOK m.skel then "guarded"
-               else if m.name == "close" ∧ m.skel == closeSkeleton then "close"
+               else if m.name == "close" ∧ CloseOK m.skel then "close"
                else if m.name == "drop_data" ∧ m.skel == dropSkeleton then "drop"
                else if Delegates m.skel then "delegates"
                else if MutRecvOK m.skel then "checks-first"
                else if DelegatesMut m.skel then "delegates"
                else "unguarded"
     let gate := if m.skel.contains .gateWrite then "x" else if m.skel.contains .gateRead then "s" else "-"
-    s!"{recv} {cls} gate={gate} reaches={if m.reaches then 1 else 0} ok={if methodOK m && innerCallersOK m then 1 else 0}"
+    s!"{recv} {cls} gate={gate} reaches={if m.reaches then 1 else 0} ok={if methodOK m then 1 else 0}"
 
 def step (c : Cfg) (ln : String) : Cfg × String :=
   match words ln with
